@@ -261,3 +261,39 @@ def _(c):
     c.ensure("accuracy_5cm", worst <= 0.05 if step <= 60 else worst <= 50.0)
     c.ensure("refused_before", c.raises(ValueError, lambda: eph.interpolate(d0 - timedelta(seconds=1e-3))))
     c.ensure("refused_after", c.raises(ValueError, lambda: eph.interpolate(d0 + timedelta(seconds=step * (n - 1) + 1e-3))))
+
+
+def _grid_ephem_views(tier, rng):
+    """ephemerides held in frames {EME2000, TOD, ITRF, TEME} x forms {cartesian, keplerian, spherical} x {lagrange order 8 on 12 points, lagrange order 4 on 6 points, linear on
+    3 points}"""
+    for fr_ in range(4):
+        for fo in range(3):
+            for m in range(3):
+                yield {"frame": fr_, "form": fo, "method": m}
+
+
+@contract("C09", "ephem.views", funcs=[f"{EPH}:Ephem.interpolate", f"{EPH}:Ephem.frame.fget", f"{EPH}:Ephem.form.fget"], grid=_grid_ephem_views, level="bounded")
+def _(c):
+    """bounded: an interpolated point keeps the ephemeris' frame and form whatever they are (also for short tables and the linear method), is dated at the query, and at a node
+    equals the stored point in that frame and form"""
+    from beyond.orbits import Orbit, Ephem
+    from beyond.dates import Date, timedelta
+    from beyond.propagators.kepler import Kepler
+    from beyond.constants import Earth
+    from contracts.c19_mission import _kep2cart
+    frame = ["EME2000", "TOD", "ITRF", "TEME"][c.integer("frame")]
+    form = ["cartesian", "keplerian", "spherical"][c.integer("form")]
+    method, order, n = [("lagrange", 8, 12), ("lagrange", 4, 6), ("linear", None, 3)][c.integer("method")]
+    r0, v0 = _kep2cart(6.9e6, 0.01, 0.9, 1.0, 2.0, 0.3, Earth.mu)
+    d0 = Date(2018, 5, 4)
+    orb = Orbit(list(r0) + list(v0), d0, "cartesian", "EME2000", Kepler())
+    pts = [orb.propagate(d0 + timedelta(seconds=60.0 * k)).copy(frame=frame, form=form) for k in range(n)]
+    eph = Ephem(pts, method=method, order=order)
+    q = d0 + timedelta(seconds=60.0 * (n - 1) - 17.0)
+    got = eph.interpolate(q)
+    c.ensure("frame_kept", got.frame.name == frame)
+    c.ensure("form_kept", got.form.name == form)
+    c.ensure("dated_at_the_query", got.date == q)
+    node = eph.interpolate(pts[1].date)
+    c.ensure("node_in_that_frame_and_form", node.frame.name == frame and node.form.name == form
+             and bool(np.allclose(np.asarray(node, dtype=float), np.asarray(pts[1], dtype=float), rtol=1e-9, atol=1e-9)))
